@@ -9,13 +9,13 @@ PROPS = "Sched/Props_C16.v"
 COQ_FILES = ["Sched/Compute.v", "Sched/ComputeProofs.v", "Sched/Cache.v", "Sched/CacheProofs.v",
              "Sched/RaceModel.v", "Sched/Generated_WalkAccesses.v", "Sched/RaceProofs.v",
              "Sched/ClientRace.v", "Sched/Generated_ClientAccesses.v", "Sched/Generated_ClientExempt.v",
-             "Sched/ClientRaceProofs.v", "Sched/Props_C16.v"]
+             "Sched/Generated_ResolutionMutations.v", "Sched/ClientRaceProofs.v", "Sched/Props_C16.v"]
 THEOREMS_CACHE = ["single_flight", "at_most_one_success_per_key", "waiters_get_owner_result",
                   "returns_linearizable", "no_lost_wakeup"]
 THEOREMS_COMPUTE = ["compute_patches_confluent", "compute_patches_confluent_compare", "patch_compare_total_preorder",
                     "patch_compare_not_transitive_refuted", "compute_patches_tie_schedule_dependent_refuted"]
 THEOREMS_RACE = ["walk_context_race_free", "shared_clients_race_free", "no_in_place_append",
-                 "no_cached_slice_mutated_in_place"]
+                 "no_cached_slice_mutated_in_place", "no_shared_subgraph_mutated_in_place"]
 
 META = {
     "technique": "Coq proofs (confluence of a nondeterministic task pool; inductive invariants of an LTS over arbitrarily "
@@ -101,6 +101,12 @@ def translate(ctx):
     m2 = re.search(r"client_accesses=(\d+) structs=(\d+) escapes=(\d+) mutations=(\d+)", out2)
     rc = rc or rc2
     out += out2
+    # third table: in-place mutations in guidedremediation/internal/resolution
+    target4 = os.path.join(vlib.COQ, "theories", "Sched", "Generated_ResolutionMutations.v")
+    rc4, out4 = vlib.sh([binp, "-mutations", os.path.join(vlib.REPO, "guidedremediation/internal/resolution"),
+                         "-name", "resolution_mutations", "-out", target4])
+    rc = rc or rc4
+    out += out4
     # accepted exceptions of the client discipline: data, from KNOWN_FINDINGS.d/C16.json
     target3 = os.path.join(vlib.COQ, "theories", "Sched", "Generated_ClientExempt.v")
     ex = []
@@ -115,7 +121,7 @@ def translate(ctx):
     if not os.path.exists(target3) or open(target3).read() != body:
         open(target3, "w").write(body)
     # the tables are compiled on every run: a restored or rewritten .v must never be paired with an older .vo
-    for t in (target, target2, target3):
+    for t in (target, target2, target3, target4):
         if os.path.exists(t):
             os.utime(t, None)
     return {"ok": rc == 0, "client_table": {"changed_since_last_run": before2 != after2, "sha256": after2,
@@ -267,6 +273,8 @@ def part_strategy(ctx, racebin):
            "concurrent_attempts": sum(r.get("concurrent_attempts", 0) for r in runs),
            "shared_slices_handed_out": sum(r.get("shared_slices_handed_out", 0) for r in runs),
            "runs_with_error": sum(1 for r in runs if r.get("err")),
+           "computepatches_executions": sum(len(r.get("run_patches") or []) for r in runs),
+           "inconsistent_universes": sum(1 for r in runs if r.get("inconsistent")),
            "race_reports": sum(len(x) for x in per_run_reports) + len(tail_reports),
            "third_party_only_reports_ignored": 0, "sample": runs[0] if runs else None}
     if rc not in (0, 66) or not runs:
@@ -276,6 +284,14 @@ def part_strategy(ctx, racebin):
     for r, reps in zip(runs, per_run_reports):
         ours = [x for x in reps if scalibr_race(x)]
         res["third_party_only_reports_ignored"] += len(reps) - len(ours)
+        if r.get("inconsistent") and nviol < 3:
+            nviol += 1
+            ctx.violation({"kind": "strategy-result-depends-on-run", "part": "strategy", "universe": r["universe"],
+                           "inconsistent": r["inconsistent"], "run_patches": r.get("run_patches"), "reference": r.get("reference"),
+                           "explanation": "the real %s strategy's ComputePatches was run several times on freshly resolved copies of one "
+                                          "universe (concurrent patch attempts), and each initial vulnerability's attempt once alone on a "
+                                          "fresh copy: the runs returned different patches, or a patch that an attempt yields on its own is "
+                                          "missing from a run" % r["universe"]["strategy"]})
         if (ours or r.get("client_state_modified")) and nviol < 3:
             nviol += 1
             ctx.violation({"kind": "strategy-race-or-client-state-modified", "part": "strategy", "universe": r["universe"],
